@@ -17,8 +17,9 @@ import (
 )
 
 type siteTable struct {
-	Solved map[string]string `json:"solved"`
-	Argued map[string]string `json:"argued"`
+	Solved     map[string]string `json:"solved"`
+	Argued     map[string]string `json:"argued"`
+	Goroutines map[string]string `json:"goroutines"` // functions starting goroutines, with the recorded argument
 }
 
 type scanResult struct {
@@ -26,6 +27,8 @@ type scanResult struct {
 	Uncovered    []string
 	Stale        []string
 	PointerPrint []string
+	GoSites      []string // functions starting goroutines
+	GoUncovered  []string
 }
 
 func scanMapRanges(scratch string) (*scanResult, error) {
@@ -82,6 +85,12 @@ func scanMapRanges(scratch string) (*scanResult, error) {
 								res.Sites = append(res.Sites, fmt.Sprintf("%s (%s:%d)", key, trimPath(pos.Filename), pos.Line))
 								seen[key] = true
 							}
+						}
+					case *ast.GoStmt:
+						pos := p.Fset.Position(n.Pos())
+						res.GoSites = append(res.GoSites, fmt.Sprintf("%s (%s:%d)", key, trimPath(pos.Filename), pos.Line))
+						if tab.Goroutines[key] == "" {
+							res.GoUncovered = append(res.GoUncovered, key)
 						}
 					case *ast.BasicLit:
 						if strings.Contains(n.Value, "%p") {
